@@ -160,6 +160,35 @@ def r5(R, repo):
           'the primal value must come from the original fn; forward_fn may run only when residuals are needed (i.e. when differentiating)')
 
 
+@rule('C07.R7', 'K1', 2, 'nn.value_and_grad / nn.grad reject a non-scalar output on every path, with and without has_aux')
+def r7(R, repo):
+  tr = repo.mod(TR)
+  f = tr.func('value_and_grad')
+  c = cfg_of(f)
+  runs = [n for x in astu.func_calls(f) if astu.src(x.func) == 'grad_partial' or (isinstance(x.func, ast.Call) and 'lift.value_and_grad' in astu.src(x.func)) for n in c.nodes_for(x)]
+  tests = [n for n in c.nodes if n.kind == 'if' and any(isinstance(y, ast.Compare) and any(isinstance(z, ast.Attribute) and z.attr in ('shape', 'ndim', 'size') for z in ast.walk(y)) for y in ast.walk(n.ast))
+           and any(c.edge_guarded(r_, n, 'T') or c.edge_guarded(r_, n, 'F') for r_ in c.nodes if isinstance(r_.stmt, ast.Raise))]
+  rets = [n for n in c.nodes if isinstance(n.stmt, ast.Return)]
+  key = key_of(f, 'scalar-output check between the lifted call and every return')
+  if not runs or not rets:
+    R.unsure(key, f, 'grad_partial() call / returns not recognised')
+    return
+  n_paths = 0
+  for run in runs:
+    after = c.reach([run])
+    for r_ in rets:
+      if r_ is run or r_ in after:
+        n_paths += 1
+        k2 = '%s :: %s' % (key, astu.short(r_.stmt, 50))
+        if tests and c.must_pass(run, r_, tests):
+          R.ok(k2, (f, r_.stmt))
+        elif tests or not evid.raises_deep(repo, f, 'ValueError'):
+          R.fail(k2, (f, r_.stmt), 'value_and_grad returns `%s` without checking that the differentiated output is a scalar on this path: for a vector-valued function nn.grad / nn.value_and_grad silently returns the gradient of the sum where jax.grad raises' % astu.short(r_.stmt.value, 60))
+        else:
+          R.unsure(k2, (f, r_.stmt), 'the scalar check may have moved into a helper')
+  R.require(n_paths >= 1, 'value_and_grad: no return after the lifted call')
+
+
 @rule('C07.R6', 'K5', 5, 'multi-scope lifts bind every sub-module to its own scope (shared with C05.R7)')
 def r6(R, repo):
   _c05.r7(R, repo)
